@@ -56,6 +56,7 @@ type Blocks struct {
 	Size    int
 	Workers int
 	Ahead   int
+	Limit   int // blocks starting at or beyond this case number are not scheduled ahead
 	Procs   int
 	// Timeout of a child = Base + PerCase * number of cases it is given
 	Base     time.Duration
@@ -163,7 +164,9 @@ func (b *Blocks) Get(seed uint64, tier string, no int) string {
 		from = 0
 	}
 	for k := from; k < from+b.Ahead; k++ {
-		b.start(k)
+		if b.Limit == 0 || k*b.Size < b.Limit {
+			b.start(k)
+		}
 	}
 	b.mu.Unlock()
 	m := <-ch
